@@ -22,6 +22,7 @@ EXPLANATION = (
 EXPLANATION += ' Added after the seeded-change rounds: ' + 'D2 also: a TLSData pointer that comes from getTLS (or a parameter that receives one untested) is dereferenced only where it was tested for null (one reasoned exception).'
 EXPLANATION += ' Added in the third session (round-3 seeds and the findings they led to): ' + 'D1 also: every size derived from the requested size by additions is checked for wrap-around against its predecessor before memory is obtained (large-object cache, remap); calloc skips the exact overflow test only when both factors are below 2^32 (path-sensitive); allocate(n) of the four C++ allocator templates bounds n before multiplying by the element size.'
 EXPLANATION += ' Added in the fourth round of seeded changes: ' + 'D2 also: a back reference index obtained from newBackRef() reaches removeBackRef / setBackRef only on edges where isInvalid() was tested and found false.'
+EXPLANATION += ' Added in the fifth round: ' + "D3 also: a block is cut in the middle (fixed pools) only if each of the two leftovers is separately tested 'empty or >= FreeBlock::minBlockSize' on a value derived from the aligned position."
 ASSUMPTIONS = ['errno is *__errno_location() (glibc)', 'Linux configuration']
 ND = ['heap integrity after an injected failure at every allocation index', 'exactly-once return of every raw region',
       'pool_identify correctness']
